@@ -19,6 +19,28 @@ type BFSResult struct {
 // BFS explores all operation sequences by explicit-state search to a fixpoint (or maxStates).
 // onViol receives the path leading to the violating transition.
 func BFS(newM func() Machine, maxStates int, onViol func(path []int, detail string)) BFSResult {
+	return BFSBounded(newM, maxStates, 1<<30, nil, onViol)
+}
+
+// Replayer is an optional fast path: apply op to the implementation only (no oracle) while a
+// recorded path is replayed to reach a state.
+type Replayer interface{ Replay(op int) }
+
+func replay(m Machine, path []int) {
+	if r, ok := m.(Replayer); ok {
+		for _, op := range path {
+			r.Replay(op)
+		}
+		return
+	}
+	for _, op := range path {
+		m.Step(op)
+	}
+}
+
+// BFSBounded is BFS with a depth bound (states at depth maxDepth are not expanded) and an
+// optional expiry predicate; either limit sets Capped.
+func BFSBounded(newM func() Machine, maxStates, maxDepth int, expired func() bool, onViol func(path []int, detail string)) BFSResult {
 	var res BFSResult
 	type node struct{ path []int }
 	seen := map[string]bool{}
@@ -32,18 +54,22 @@ func BFS(newM func() Machine, maxStates int, onViol func(path []int, detail stri
 		if len(cur.path) > res.MaxDepth {
 			res.MaxDepth = len(cur.path)
 		}
+		if len(cur.path) >= maxDepth {
+			res.Capped = true
+			continue
+		}
+		if expired != nil && expired() {
+			res.Capped = true
+			break
+		}
 		// enabled ops in this state
 		m := newM()
-		for _, op := range cur.path {
-			m.Step(op)
-		}
+		replay(m, cur.path)
 		ops := append([]int(nil), m.Ops()...)
 		for oi, op := range ops {
 			if oi > 0 {
 				m = newM()
-				for _, o := range cur.path {
-					m.Step(o)
-				}
+				replay(m, cur.path)
 			}
 			res.Transitions++
 			v := m.Step(op)
